@@ -301,6 +301,10 @@ func esDescs(kind string) []*astits.Descriptor {
 	case "lang":
 		return []*astits.Descriptor{{Tag: astits.DescriptorTagISO639LanguageAndAudioType, Length: 4,
 			ISO639LanguageAndAudioType: &astits.DescriptorISO639LanguageAndAudioType{Language: []byte("eng"), Type: 1}}}
+	case "emptylast": // the loop ends with a descriptor that has no body at all
+		return []*astits.Descriptor{{Tag: astits.DescriptorTagStreamIdentifier, Length: 1, StreamIdentifier: &astits.DescriptorStreamIdentifier{ComponentTag: 0x43}}, {Tag: 0x90, UserDefined: []byte{}}}
+	case "emptyonly":
+		return []*astits.Descriptor{{Tag: 0x91, UserDefined: []byte{}}}
 	}
 	panic("unknown desc kind")
 }
